@@ -1108,6 +1108,22 @@ def _infer_expr_type(
             if owner.id in sensors:
                 return "float"
 
+        if attr in {"get_speed", "get_applied_speed"} and isinstance(owner, ast.Name):
+            if ctx is None or owner.id in ctx.get("dc_motor_names", set()):
+                return "float"
+
+        if attr == "get_mode" and isinstance(owner, ast.Name):
+            if ctx is None or owner.id in ctx.get("dc_motor_names", set()):
+                return "String"
+
+        if attr in {"get_frequency", "get_last_frequency"} and isinstance(owner, ast.Name):
+            if ctx is None or owner.id in ctx.get("buzzer_names", set()):
+                return "float"
+
+        if attr == "get_state" and isinstance(owner, ast.Name):
+            if ctx is not None and owner.id in ctx.get("buzzer_names", set()):
+                return "bool"
+
     if isinstance(node, ast.Call) and isinstance(node.func, ast.Name):
         fname = node.func.id
 
